@@ -30,7 +30,9 @@ lendtypes.AppID: both liveness monitors are reported under this name), seize_exa
 auction_type (generation 2: the auction opened for a seizure is Dutch iff the app has Dutch activated, English only when English
 is activated; nothing seized when neither is), external_keeper_isolated (MsgLiquidateExternalKeeper / MsgAppReserveFunds
 touch no vault, no borrow, no vault or pool custody; exactly one locked vault + one Dutch auction over exactly the delivered collateral),
-batch_validated (a zero batch size is rejected). -/
+batch_validated (a zero batch size is rejected), vault_counter_follows_vault_seizures (on every real block / liquidate message the
+vault counter `LengthOfVault` decreases by exactly the number of vaults seized: borrow, external and kick-off seizures must leave the
+vault sweep's window alone — seed s107). -/
 -- DRIVER: prefix=liq ns=Comdex.Drv.Liquidation
 namespace Comdex.Drv.Liquidation
 open Comdex Comdex.Liquidation Comdex.Line
@@ -270,7 +272,9 @@ def effectMonitors (gen : Nat) (e : Env) (w : World) (r : Post) : List String :=
       0 ≤ w.poolBal.get a - r.poolBal.get a)
   -- generation 1 (D33): the pool gives up more of an asset than the seized borrows had pledged in it
   let exceeds := gen == 1 && assets.any fun a => w.poolBal.get a - r.poolBal.get a > sumB a + sumC a
-  (if safe then ["safe_never_seized"] else []) ++
+  -- `nonvault_seizure_leaves_vault_window`: within a hook or a liquidate message the vault counter moves by the vault seizures only
+  let counterOk := r.counter == (List.range gone.length).foldl (fun c _ => decU64 c) w.counter
+  (if safe then ["safe_never_seized"] else []) ++ (if counterOk then [] else ["vault_counter_follows_vault_seizures"]) ++
   (if one then [] else ["one_auction"]) ++ (if aucType then [] else ["auction_type"]) ++
   (if exact then [] else ["seize_exact_collateral"]) ++ (if exceeds then ["gen1_selloff_exceeds_collateral"] else []) ++
   (if isAscending (w.vaults.map (·.id)) then [] else ["store_order"])
@@ -288,9 +292,11 @@ def offKey (gen : Nat) (v : Vault) : Nat := if gen == 2 then 0 else v.app
 
 /-- liveness monitors: update the per-position tracks with the REAL pre-state of block `blk`, then judge with the post -/
 def liveMonitors (st : St) (w : World) (r : Post) : List Track × List String :=
-  if w.counter != w.vaults.length || st.batch == 0 then ([], []) else
+  -- a counter ABOVE the list length is the injected state (the pass panics / reads phantoms); a counter BELOW it — which the
+  -- unchanged code never produces — cuts the tail of the list off the sweep: the liveness monitors stay armed and report it
+  if w.counter > w.vaults.length || st.batch == 0 then ([], []) else
   let ids := w.vaults.map (·.id)
-  let n := ids.length
+  let n := w.counter   -- what the code windows with (= the list length on a consistent state)
   let rec go (vs : List Vault) (i : Nat) (accT : List Track) (accM : List String) : List Track × List String :=
     match vs with
     | [] => (accT.reverse, accM.reverse)
